@@ -3,7 +3,7 @@
    [record11_go] is the cursor-level transcription of response.record1dot1Chunks in which every
    d[i] / d[i:j] is a checked access yielding DPanic where Go would panic; [record11_spec] is the
    functional decoder; [encode11] is an RFC 6242 encoder written independently of both. *)
-From Scrapli Require Import Bytes BytesLemmas Regex PlatformTypes Generated Netconf NetconfLemmas.
+From Scrapli Require Import Bytes BytesLemmas Regex PlatformTypes Generated Channel Netconf NetconfLemmas NcSession NcSessionLemmas NcSegLemmas.
 
 (* the Go loop, access by access, computes the functional decoder ... *)
 Theorem C02_go_refines_spec : forall raw, record11_go raw = record11_spec raw.
@@ -76,6 +76,72 @@ Proof.
   destruct (record11_go raw); [reflexivity | reflexivity | congruence].
 Qed.
 
+
+(* NETCONF 1.0: a payload followed by the end-of-message delimiter (and any whitespace) decodes to
+   exactly the payload, XML declaration and surrounding whitespace trimmed (no hypothesis on the
+   payload: the empty and the all-blank payload included) *)
+Theorem C02_wellformed_10 : forall p post, ws post ->
+  record10 (p ++ nc_v1dot0_delim ++ post) = go_trim_space (trim_prefix nc_xml_header p).
+Proof. exact record10_payload_any. Qed.
+
+(* "for every way its bytes are split into transport reads": the read loop of driver/netconf
+   (NcSession.nc_read_chunk, iterated by [read_chunks]) files the same message under the same id
+   whatever the cut, provided no read boundary makes a proper prefix look complete (the delimiter
+   pattern does not match it) -- two cuts of one message give the same buffer and store *)
+Theorem C02_split_independent : forall v st cs1 cs2 m,
+  concat cs1 = m -> concat cs2 = m ->
+  (forall k, (k < length cs1)%nat -> rx_match (delim_re v) (concat (firstn k cs1)) = false) ->
+  (forall k, (k < length cs2)%nat -> rx_match (delim_re v) (concat (firstn k cs2)) = false) ->
+  rx_match (delim_re v) m = true -> contains END_RPC m = false ->
+  message_id_of m <> 0%Z ->
+  read_chunks v [] st cs1 = read_chunks v [] st cs2.
+Proof. exact split_independent_eq. Qed.
+
+(* end to end, 1.1: a reply that is a legal RFC 6242 chunking of a payload, cut into reads in any
+   such way, is returned by the call whose message-id it carries with exactly the payload as result
+   (declaration and whitespace trimmed), not marked as a parse error, marked failed exactly by the
+   rpc-error markers *)
+Theorem C02_reply_any_split_11 : forall s o p ws0 cs pre chunks post,
+  n_ver s = V11 ->
+  n_buf s = [] -> n_panic s = false -> op_payload o = BOk p ->
+  let m := pre ++ encode11 chunks ++ post in
+  concat cs = m ->
+  (forall k, (k < length cs)%nat -> rx_match (delim_re V11) (concat (firstn k cs)) = false) ->
+  rx_match (delim_re V11) m = true -> contains END_RPC m = false ->
+  message_id_of m = Z.of_N (n_next_id s) -> Z.of_N (n_next_id s) <> 0%Z ->
+  chunks <> [] -> Forall chunk_ok chunks -> ws pre -> ws post ->
+  exists s',
+    do_rpc s o (map NW ws0 ++ map NR cs)
+    = (s', ROk (Z.of_N (n_next_id s))
+               (ser_raw (serialize V11 (n_force s) (n_xh s) (n_next_id s) p))
+               (ser_framed (serialize V11 (n_force s) (n_xh s) (n_next_id s) p))
+               (finish11 (concat chunks))
+               (carries_marker m || carries_marker (finish11 (concat chunks))) false) /\
+    n_buf s' = [] /\ n_store s' = store_del (n_store s) (Z.of_N (n_next_id s)) /\
+    n_next_id s' = n_next_id s + 1.
+Proof. exact reply_never_lost_11. Qed.
+
+(* ... and 1.0 *)
+Theorem C02_reply_any_split_10 : forall s o p ws0 cs payload post,
+  n_ver s = V10 ->
+  n_buf s = [] -> n_panic s = false -> op_payload o = BOk p ->
+  let m := payload ++ nc_v1dot0_delim ++ post in
+  concat cs = m ->
+  (forall k, (k < length cs)%nat -> rx_match (delim_re V10) (concat (firstn k cs)) = false) ->
+  rx_match (delim_re V10) m = true -> contains END_RPC m = false ->
+  message_id_of m = Z.of_N (n_next_id s) -> Z.of_N (n_next_id s) <> 0%Z ->
+  ws post ->
+  exists s',
+    do_rpc s o (map NW ws0 ++ map NR cs)
+    = (s', ROk (Z.of_N (n_next_id s))
+               (ser_raw (serialize V10 (n_force s) (n_xh s) (n_next_id s) p))
+               (ser_framed (serialize V10 (n_force s) (n_xh s) (n_next_id s) p))
+               (go_trim_space (trim_prefix nc_xml_header payload))
+               (carries_marker m) false) /\
+    n_buf s' = [] /\ n_store s' = store_del (n_store s) (Z.of_N (n_next_id s)) /\
+    n_next_id s' = n_next_id s + 1.
+Proof. exact reply_never_lost_10. Qed.
+
 Print Assumptions C02_go_refines_spec.
 Print Assumptions C02_never_panics.
 Print Assumptions C02_wellformed_11.
@@ -87,3 +153,7 @@ Print Assumptions C02_negative_size_fails.
 Print Assumptions C02_long_header_fails.
 Print Assumptions C02_junk_marker_fails.
 Print Assumptions C02_record_marking.
+Print Assumptions C02_wellformed_10.
+Print Assumptions C02_split_independent.
+Print Assumptions C02_reply_any_split_11.
+Print Assumptions C02_reply_any_split_10.
